@@ -17,6 +17,7 @@ mod c16;
 mod c17;
 mod c20;
 mod c07;
+mod repo;
 
 fn main() {
     std::panic::set_hook(Box::new(|_| {}));
@@ -70,6 +71,7 @@ fn main() {
         "c07-names" => c07::names(rest),
         "c07-worker" => c07::worker(rest),
         "c07-run" => c07::run(rest),
+        "repo-record" => repo::record(rest),
         x => {
             eprintln!("unknown subcommand {}", x);
             std::process::exit(2);
